@@ -570,18 +570,26 @@ class Schema(ResolverMap):
         # Invalidate validation
         self._is_valid = None
 
-    def _applicable_resolvers(self, target: "Schema") -> ResolverMap:
-        # The registries may still name fields which a transform has renamed or
-        # removed since they were registered (the field objects carry their
-        # resolvers anyway): only the entries which still apply are replayed.
-        applicable = ResolverMap()
+    def _copy_registries_to(self, target: "Schema") -> None:
+        # Used when deriving `target` from this schema (clone, extension).
+        #
+        # - The registries may still name fields which a transform has renamed
+        #   or removed since they were registered: only the entries which still
+        #   name a field of `target` are carried over.
+        # - Only the entries are copied (into dicts owned by `target`): the
+        #   fields of `target` already carry their resolvers, which may have
+        #   been wrapped or replaced since they were registered. Replaying
+        #   register_resolver() would either refuse that or undo it.
         for typename, fieldname, resolver in _registered(self.resolvers, target):
-            applicable.register_resolver(typename, fieldname, resolver)
+            target.resolvers.setdefault(typename, {})[fieldname] = resolver
         for typename, fieldname, resolver in _registered(
             self.subscriptions, target
         ):
-            applicable.register_subscription(typename, fieldname, resolver)
-        return applicable
+            target.subscriptions.setdefault(typename, {})[
+                fieldname
+            ] = resolver
+        target.default_resolver = self.default_resolver
+        target.default_resolvers.update(self.default_resolvers)
 
     def clone(self) -> "Schema":
         cloned = Schema(
@@ -612,9 +620,7 @@ class Schema(ResolverMap):
             },
         )
 
-        cloned.merge_resolvers(self._applicable_resolvers(cloned))
-        cloned.default_resolver = self.default_resolver
-        cloned.default_resolvers.update(self.default_resolvers)
+        self._copy_registries_to(cloned)
 
         return cloned
 
